@@ -27,12 +27,12 @@ K(a, b, c) == a * 2000 + b * 40 + c
 (* Pools                                                                   *)
 (***************************************************************************)
 \* (names that merely START with a keyword -- notes, indexes_count, tables -- are ordinary bare identifiers)
-TableNames == <<"users", "orders", "order items", "table", "~u00dc~n~u00ef~", "Products", "t_1", "note", "ref", "notes", "tables">>
+TableNames == <<"users", "orders", "order items", "table", "~u00dc~n~u00ef~", "Products", "t_1", "note", "ref", "notes", "tables", "Users", "123", "a  b">>
 SchemaPool == <<"", "", "", "s1", "my schema", "public", "s1">>
 AliasPool  == <<"u", "O", "oi", "my alias", "a5", "P", "t1a", "n8", "r9">>
-ColNames   == <<"id", "name", "user id", "note", "type", "~u540d~~u524d~", "Ref", "c_2", "default", "pk", "notes", "indexes_count", "ref_id">>
+ColNames   == <<"id", "name", "user id", "note", "type", "~u540d~~u524d~", "Ref", "c_2", "default", "pk", "notes", "indexes_count", "ref_id", "ID", "1st", "0">>
 EnumNames  == <<"status", "order status", "enum", "~u00e9~tat">>
-EnumItems  == <<"new", "in progress", "done", "~u2713~ ok", "null", "x-1", "notes">>
+EnumItems  == <<"new", "in progress", "done", "~u2713~ ok", "null", "x-1", "notes", "0", "New">>
 PlainTypes == << [schema |-> "", name |-> "int", suffix |-> ""],
                  [schema |-> "", name |-> "varchar", suffix |-> "(255)"],
                  [schema |-> "", name |-> "decimal", suffix |-> "(10, 2)"],
@@ -52,7 +52,7 @@ Defaults   == << [k |-> "none", v |-> ""], [k |-> "none", v |-> ""], [k |-> "int
                  [k |-> "expr", v |-> "a + 'b'"],
                  \* a quoted default keeps its kind whatever it spells; an expression may itself begin and end with a parenthesis
                  [k |-> "str", v |-> "12"], [k |-> "str", v |-> "00501"], [k |-> "str", v |-> "1.50"],
-                 [k |-> "str", v |-> "true"], [k |-> "str", v |-> "False"],
+                 [k |-> "str", v |-> "true"], [k |-> "str", v |-> "False"], [k |-> "int", v |-> "12345678901234567890"],
                  [k |-> "expr", v |-> "(a) * (b)"], [k |-> "expr", v |-> "(now())"] >>
 Colors     == <<"", "", "#abc", "#A1B2C3", "#fff000">>
 PropKeys   == <<"owner", "pii", "k_3", "my key", "notes_key">>
